@@ -22,12 +22,15 @@
                      (all four in the parallel first stage of parseSpecs; the first goroutine to fail wins)
      PbDecode        a compiled model (.pb / .pb.json / .textpb) that does not decode: the error is kept in stage 1
                      and reported in stage 2, in file order -> plain error `error parsing f: ...`
+     PbMerge         a compiled model that decodes but cannot be merged into the module built so far (mergo.Merge
+                     fails or panics: a name with values of different Go types on the two sides): reported in stage 2,
+                     in file order -> plain error `error merging f: ...` (second pass; fixes/C06-4, C06-5)
    Which class a file of a given name and content falls into is computed by the dispatch model Imports/Foreign.v. *)
 From Coq Require Import List NArith Arith Bool.
 Import ListNotations.
 Require Import Verif.Imports.Rules Verif.Imports.Collect.
 
-Inductive fault := ReadErr | ImportSyntax | BodySyntax | ForeignDetect | ForeignConvert | ForeignAmbiguous | ForeignJson | PbDecode.
+Inductive fault := ReadErr | ImportSyntax | BodySyntax | ForeignDetect | ForeignConvert | ForeignAmbiguous | ForeignJson | PbDecode | PbMerge.
 Definition faults := idx -> option fault.
 
 Inductive err :=
@@ -38,16 +41,17 @@ Inductive err :=
 | EConvert (f:idx)           (* syslutil.Exitf(ParseError, "f has unknown format: ...") *)
 | EAmbiguous (f:idx)         (* plain error from detectFileType: two signatures match *)
 | EJson (f:idx)              (* plain error from detectFileType: yaml.JSONToYAML failed *)
-| EPbDecode (f:idx).         (* fmt.Errorf("error parsing f: %w", <decoder's error>) in stage 2 *)
+| EPbDecode (f:idx)          (* fmt.Errorf("error parsing f: %w", <decoder's error>) in stage 2 *)
+| EMerge (f:idx).            (* fmt.Errorf("error merging f: %w", <mergo's error or recovered panic>) in stage 2 *)
 
 (* cmd/sysl main2: syslutil.Exit carries its code, any other error is 1 *)
 Definition exit_code (e:err) : N :=
   match e with EReadFail _ => 1 | ESyntax _ => 2 | EWrap _ _ => 1 | EDetect _ => 1 | EConvert _ => 2
-             | EAmbiguous _ => 1 | EJson _ => 1 | EPbDecode _ => 1 end%N.
+             | EAmbiguous _ => 1 | EJson _ => 1 | EPbDecode _ => 1 | EMerge _ => 1 end%N.
 
 Fixpoint names (e:err) (f:idx) : bool :=
   match e with
-  | EReadFail x | ESyntax x | EDetect x | EConvert x | EAmbiguous x | EJson x | EPbDecode x => N.eqb x f
+  | EReadFail x | ESyntax x | EDetect x | EConvert x | EAmbiguous x | EJson x | EPbDecode x | EMerge x => N.eqb x f
   | EWrap p e' => N.eqb p f || names e' f
   end.
 
@@ -56,9 +60,9 @@ Definition collect_fault (fl:faults) (f:idx) : bool :=
 Definition foreign_fault (fl:faults) (f:idx) : bool :=
   match fl f with Some ForeignDetect | Some ForeignConvert | Some ForeignAmbiguous | Some ForeignJson => true | _ => false end.
 (* what the second stage of parseSpecs reports, in file order: a syntax error of the (converted) text, or the
-   decoding error of a compiled model that the first stage kept *)
+   decoding error of a compiled model that the first stage kept, or the failure of merging a decoded one *)
 Definition body_fault (fl:faults) (f:idx) : bool :=
-  match fl f with Some BodySyntax | Some PbDecode => true | _ => false end.
+  match fl f with Some BodySyntax | Some PbDecode | Some PbMerge => true | _ => false end.
 Definition parse_fault (fl:faults) (f:idx) : bool := foreign_fault fl f || body_fault fl f.
 
 Inductive fphase := FEntry | FReading | FWaiting (first:option err).
@@ -213,7 +217,7 @@ Definition foreign_err (fl:faults) (f:idx) : err :=
   | Some ForeignConvert => EConvert f | Some ForeignAmbiguous => EAmbiguous f | Some ForeignJson => EJson f
   | _ => EDetect f end.
 Definition body_err (fl:faults) (f:idx) : err :=
-  match fl f with Some PbDecode => EPbDecode f | _ => ESyntax f end.
+  match fl f with Some PbDecode => EPbDecode f | Some PbMerge => EMerge f | _ => ESyntax f end.
 
 (* parseSpecs: stage 1 converts every foreign file in its own goroutine, g.Wait() returns the first
    error (`choice` = which of the failing conversions returns first); stage 2 parses the files in order *)
